@@ -105,6 +105,8 @@ def main(chk):
         sc = score.Score(partlist=structure, id="S%d" % cid)
         if not uniquify_pitches(score, sc, rng):
             continue
+        if not any(len(p.notes) for p in parts):
+            continue        # (nothing sounds: there is no timing or pitch to preserve, and no track to carry the signatures)
         mode = rng.randint(0, 5)
         policy = rng.choice(["shift", "pad_bar", "time_sig_change"])
         minppq = rng.choice([0, 0, 96, 480])
